@@ -66,6 +66,11 @@ Theorem C14_b64_decode_not_injective :
 Proof. exact b64pad_dec_not_injective. Qed.
 Print Assumptions C14_b64_decode_not_injective.
 
+Theorem C14_key_string_canonical : forall s b : bstr,
+  b64pad_canonical tbl_b64std s -> mb_decode (77 :: s) = Some b -> mb64enc b = 77 :: s.
+Proof. exact mb64_dec_enc. Qed.
+Print Assumptions C14_key_string_canonical.
+
 Theorem C14_b64_canonical : forall s b : bstr,
   b64_canonical tbl_b64std s -> b64raw_dec tbl_b64std s = Some b -> b64std b = s.
 Proof. exact (b64raw_dec_enc tbl_b64std tbl_b64std_ok). Qed.
